@@ -22,12 +22,14 @@
 //   - an observer is never shown the marker: go-zero received a progress notification
 //     queued BEHIND the marker's response (hist.await) -> the ordinary comparison runs
 //     at once and names what is wrong.
+//
 // Per process the first reportsPerChild outcomes of each kind are reported, the rest
 // only counted, so that a tree broken in one of these ways ends quickly.
 package c13
 
 import (
 	"context"
+	"errors"
 	"fmt"
 	"net"
 	"net/url"
@@ -122,8 +124,24 @@ func newRouter(endpoint string, conn *grpc.ClientConn) *router {
 	return r
 }
 
+// clientFor: endpoints served by something else than a router (a scripted etcd with
+// leases, a factory that fails for a while); consulted first. Guarded by routersMu.
+var clientFor = map[string]func() (any, error){}
+
+func setClientFor(endpoint string, mk func() (any, error)) {
+	routersMu.Lock()
+	clientFor[endpoint] = mk
+	routersMu.Unlock()
+}
+
 func installFactory() {
 	discov.VerifSetEtcdClientFactory(func(endpoints []string) (any, error) {
+		routersMu.Lock()
+		mk := clientFor[endpoints[0]]
+		routersMu.Unlock()
+		if mk != nil {
+			return mk()
+		}
 		routersMu.Lock()
 		defer routersMu.Unlock()
 		r := routers[endpoints[0]]
@@ -284,21 +302,31 @@ type resRec struct {
 	// stack of whoever publishes (Build, or go-zero's watch goroutine); no lock is held,
 	// go-zero may publish again from another goroutine meanwhile. Set before Build only.
 	hook func(call int)
+	// errEvery > 0: every errEvery-th UpdateState records the list and then returns an
+	// error, as grpc's ClientConn does when the balancer rejects a state
+	// (balancer.ErrBadResolverState); later publications must still come. Set before Build.
+	errEvery int
 }
+
+var errBadResolverState = errors.New("bad resolver state (returned by the recording ClientConn of the c13 harness)")
 
 func (r *resRec) UpdateState(s gresolver.State) error {
 	addrs := make([]string, 0, len(s.Addresses))
 	for _, a := range s.Addresses {
 		addrs = append(addrs, a.Addr)
 	}
-	if n := r.record(addrs); r.hook != nil {
+	n := r.record(addrs)
+	if r.hook != nil {
 		r.hook(n)
+	}
+	if r.errEvery > 0 && n%r.errEvery == 0 {
+		return errBadResolverState
 	}
 	return nil
 }
-func (r *resRec) ReportError(error)                {}
-func (r *resRec) NewAddress([]gresolver.Address)   {}
-func (r *resRec) NewServiceConfig(string)          {}
+func (r *resRec) ReportError(error)              {}
+func (r *resRec) NewAddress([]gresolver.Address) {}
+func (r *resRec) NewServiceConfig(string)        {}
 func (r *resRec) ParseServiceConfig(string) *serviceconfig.ParseResult {
 	return nil
 }
@@ -346,6 +374,19 @@ type hist struct {
 	missedOps int
 	syncs     int
 	sigParts  []any
+	extraOpts []discov.SubOption // further options for every subscriber of this history (faults_test.go)
+	hosts     []string           // the endpoint list handed to go-zero (default: the one endpoint ep)
+	// subErrClass != "": an error of NewSubscriber / resolver Build is reported as a
+	// violation of that class instead of being treated as a harness failure
+	subErrClass string
+	resErrEvery int // the recording ClientConn of resolvers built from now on fails every n-th UpdateState
+}
+
+func (h *hist) endpoints() []string {
+	if len(h.hosts) > 0 {
+		return append([]string(nil), h.hosts...)
+	}
+	return []string{h.ep}
 }
 
 func newHist(c *kit.Case, rt *router, ep, prefix string) *hist {
@@ -353,6 +394,11 @@ func newHist(c *kit.Case, rt *router, ep, prefix string) *hist {
 	rt.mu.Lock()
 	rt.routes[prefix] = f
 	rt.mu.Unlock()
+	return newHistOn(c, f, ep, prefix)
+}
+
+// newHistOn: a history on a scripted store the caller has made reachable itself.
+func newHistOn(c *kit.Case, f *fakeEtcd, ep, prefix string) *hist {
 	end := []byte(prefix + "/")
 	end[len(end)-1]++
 	return &hist{c: c, f: f, ep: ep, prefix: prefix, pwk: wkey{key: prefix + "/", end: string(end)}, xwk: wkey{key: prefix},
@@ -381,6 +427,7 @@ func (h *hist) addSub(name string, excl, exact bool, nLis int) *subRec {
 			mode = "exact"
 		}
 	}
+	opts = append(opts, h.extraOpts...)
 	s := &subRec{name: name, mode: mode, excl: excl, wk: wk}
 	if h.dead {
 		s.closed = true
@@ -404,7 +451,8 @@ func (h *hist) addSub(name string, excl, exact bool, nLis int) *subRec {
 	}
 	var sub *discov.Subscriber
 	var err error
-	if p := guard(func() { sub, err = discov.NewSubscriber([]string{h.ep}, h.prefix, opts...) }); p != nil {
+	lens := h.f.transLens() // a feed that exists already (re-subscription after every subscriber was closed) is followed from here
+	if p := guard(func() { sub, err = discov.NewSubscriber(h.endpoints(), h.prefix, opts...) }); p != nil {
 		h.subs = append(h.subs, s)
 		s.closed = true
 		s.m = newMirror(excl, wk, 0)
@@ -412,7 +460,17 @@ func (h *hist) addSub(name string, excl, exact bool, nLis int) *subRec {
 		return s
 	}
 	if err != nil {
-		panic("c13 harness: NewSubscriber: " + err.Error())
+		if h.subErrClass == "" {
+			panic("c13 harness: NewSubscriber: " + err.Error())
+		}
+		// a history that scripted faults before: the etcd is healthy now, so this is go-zero's
+		h.subs = append(h.subs, s)
+		s.closed = true
+		s.m = newMirror(excl, wk, 0)
+		h.dead = true
+		h.c.Viol("C13/subscribe-failed/"+h.subErrClass, "NewSubscriber returned an error on a healthy scripted etcd: "+err.Error(),
+			map[string]any{"endpoint": h.ep, "watched_key": h.prefix, "steps": h.log, "error": err.Error(), "registered_now": h.f.current(wk)})
+		return s
 	}
 	s.sub = sub
 	s.m = newMirror(excl, wk, pos)
@@ -426,7 +484,8 @@ func (h *hist) addSub(name string, excl, exact bool, nLis int) *subRec {
 			h.inconclusive("watchdog: no Get+Watch after NewSubscriber")
 		}
 		_, _, s.fk = h.f.totals()
-		s.m.consume(h.f.transcript(s.fk, 0))
+		s.m = newMirror(excl, wk, lens[s.fk])
+		s.m.consume(h.f.transcript(s.fk, lens[s.fk]))
 	}
 	for i := 0; i < nLis; i++ {
 		l := newLis()
@@ -450,11 +509,11 @@ func (h *hist) addResolver(name string) *subRec {
 	if b == nil {
 		panic("c13 harness: discov resolver scheme not registered")
 	}
-	u, err := url.Parse("discov://" + h.ep + "/" + h.prefix)
+	u, err := url.Parse("discov://" + strings.Join(h.endpoints(), ",") + "/" + h.prefix)
 	if err != nil {
 		panic(err)
 	}
-	s := &subRec{name: name, mode: "resolver", wk: h.pwk, res: &resRec{lisRec: *newLis()}}
+	s := &subRec{name: name, mode: "resolver", wk: h.pwk, res: &resRec{lisRec: *newLis(), errEvery: h.resErrEvery}}
 	if h.dead {
 		s.closed = true
 		s.m = newMirror(false, h.pwk, 0)
@@ -476,6 +535,7 @@ func (h *hist) addResolver(name string) *subRec {
 		joinSnap = h.f.current(s.fk)
 	}
 	var rs gresolver.Resolver
+	lens := h.f.transLens()
 	if p := guard(func() { rs, err = b.Build(gresolver.Target{URL: *u}, s.res, gresolver.BuildOptions{}) }); p != nil {
 		h.subs = append(h.subs, s)
 		s.closed = true
@@ -484,7 +544,16 @@ func (h *hist) addResolver(name string) *subRec {
 		return s
 	}
 	if err != nil {
-		panic("c13 harness: discov Build: " + err.Error())
+		if h.subErrClass == "" {
+			panic("c13 harness: discov Build: " + err.Error())
+		}
+		h.subs = append(h.subs, s)
+		s.closed = true
+		s.m = newMirror(false, h.pwk, 0)
+		h.dead = true
+		h.c.Viol("C13/resolver-build-failed/"+h.subErrClass, "the discov resolver's Build returned an error on a healthy scripted etcd: "+err.Error(),
+			map[string]any{"endpoint": h.ep, "watched_key": h.prefix, "steps": h.log, "error": err.Error()})
+		return s
 	}
 	s.rs = rs
 	s.m = newMirror(false, h.pwk, pos)
@@ -496,7 +565,8 @@ func (h *hist) addResolver(name string) *subRec {
 			h.inconclusive("watchdog: no Get+Watch after resolver Build")
 		}
 		_, _, s.fk = h.f.totals()
-		s.m.consume(h.f.transcript(s.fk, 0))
+		s.m = newMirror(false, h.pwk, lens[s.fk])
+		s.m.consume(h.f.transcript(s.fk, lens[s.fk]))
 	}
 	h.subs = append(h.subs, s)
 	h.c.Obs("resolvers_built", 1)
@@ -918,10 +988,12 @@ const (
 	rlBreakCancel
 	rlCompactBreak
 	rlCompactLive
+	rlCompactLiveNoCancel // registry-faults family only
 )
 
 var rlNames = []string{"BREAK(channel closed -> re-watch replays from the last load)", "BREAK(canceled response -> re-watch replays from the last load)",
-	"COMPACT(stream broken, re-watch answers compacted -> load snapshot)", "COMPACT(compaction response on the live stream -> load snapshot)"}
+	"COMPACT(stream broken, re-watch answers compacted -> load snapshot)", "COMPACT(compaction response on the live stream -> load snapshot)",
+	"COMPACT(response with a compact revision but without the canceled flag on the live stream, channel closed -> load snapshot)"}
 
 // reload: partition (missed ops are applied to the store only), then the chosen
 // kind of stream failure; waits for go-zero's follow-up calls, then synchronises.
@@ -963,6 +1035,8 @@ func (h *hist) reload(kind int, n int, next func() op) {
 			h.f.breakStream(wk, false)
 		case rlCompactLive:
 			h.f.compactLive(wk)
+		case rlCompactLiveNoCancel:
+			h.f.compactLiveRaw(wk, false)
 		}
 		// whatever go-zero does to recover (re-watch; or re-watch, be told "compacted",
 		// load, watch again), it ends with a watch that is being served
@@ -1834,5 +1908,10 @@ func TestVerifC13(t *testing.T) {
 	kit.Run(t, "C13", "resolver-large", kit.N(400, 8000), largeResolverHistory)
 	kit.Run(t, "C13", "resolver-build-inject", kit.N(800, 20000), buildInjectHistory)
 	kit.Run(t, "C13", "reconnect", kit.N(24, 480), reconnectHistory)
+	// the registration side: real Publisher on a scripted etcd with leases (pub_test.go)
+	kit.Run(t, "C13", "publisher", kit.N(8, 96), publisherCase)
+	// error paths of registry / subscriber / resolver followed by ordinary histories (faults_test.go)
+	kit.Run(t, "C13", "registry-faults", kit.N(72, 1800), registryFaultCase)
+	removeTLSFiles()
 	kit.End()
 }
